@@ -56,7 +56,7 @@ InitState(cfg, P) ==
    nops |-> [t \in Threads |-> 0],
    trk |-> [k \in Keys |-> -1], heap |-> {}, clk |-> 1, mu |-> "free",
    file |-> [k \in Keys |-> 0], ino |-> <<>>,
-   inner |-> [k \in Keys |-> k \in P], epoch |-> [k \in Keys |-> 0],
+   inner |-> [k \in Keys |-> k \in P], epoch |-> [k \in Keys |-> 0], absP |-> [k \in Keys |-> k \in P],
    stored |-> [k \in Keys |-> {}], sawA |-> [t \in Threads |-> FALSE], sawP |-> [t \in Threads |-> FALSE],
    panicked |-> FALSE, unsync |-> FALSE]
 
@@ -182,9 +182,14 @@ BeginRaw(S, t, o) ==
        [] o.kind = "crem" ->
             IF S.mu # "free" THEN {}
             ELSE {Done([S1 EXCEPT !.file[k] = 0], t, OkRes) : S1 \in TrackRemoveSet(S0, k)}
-       [] o.kind = "pput" -> {[S0 EXCEPT !.inner[k] = TRUE, !.cap[t] = S.epoch[k], !.pc[t] = "commit"]}
+       [] o.kind = "pput" -> {[S0 EXCEPT !.inner[k] = TRUE, !.absP[k] = TRUE, !.cap[t] = S.epoch[k], !.pc[t] = "commit"]}
        [] o.kind = "pdel" -> {[S0 EXCEPT !.inner[k] = FALSE, !.epoch[k] = S.epoch[k] + 1, !.pc[t] = "commit"]}
        [] OTHER -> {}
+
+\* ghost absP[id]: id is present in SOME linearisation of the calls so far.  A PutPart makes it present at
+\* its inner put; a DeletePart makes it absent when its Remove has run - unless a PutPart of the same id is
+\* still in flight, which may then be ordered after the delete.
+PutInFlight(S, t, k) == \E w \in Threads \ {t} : S.op[w].kind = "pput" /\ S.op[w].k = k /\ S.pc[w] \notin {"idle", "done"}
 
 StepRaw(S, t) ==
   LET p == S.pc[t]
@@ -202,8 +207,14 @@ StepRaw(S, t) ==
        [] p = "commit" ->     \* tx after-commit hook: Set (PutPart) / Remove (DeletePart)
             IF S.mu # "free" THEN {}
             ELSE IF S.op[t].kind = "pput" THEN {DoTrackSet(S, t)}
-            ELSE {Done([S1 EXCEPT !.file[k] = 0], t, OkRes) : S1 \in TrackRemoveSet(S, k)}
+            ELSE {Done([S1 EXCEPT !.file[k] = 0, !.absP[k] = PutInFlight(S, t, k)], t, OkRes) : S1 \in TrackRemoveSet(S, k)}
        [] OTHER -> {}
+
+\* cheap enabledness test of StepRaw (kept equal to StepRaw # {} by invariant InvCanStep)
+CanStep(S, t) ==
+  \/ S.pc[t] \in {"evict", "s.enter", "s.r1", "s.r2", "g.r1", "g.r2", "inner"}
+  \/ S.pc[t] = "s.exit" /\ (PreStore(S.op[t]) \/ S.mu = "free")
+  \/ S.pc[t] = "commit" /\ S.mu = "free"
 
 \* ------------------------------------------------- bookkeeping after every step
 \* inodes nobody refers to are forgotten (keeps the state space small)
@@ -215,9 +226,10 @@ Norm(S) == LET refd == Refd(S)
                cl == [i \in 1..Len(S.ino) |-> IF i \in refd THEN S.ino[i] ELSE <<>>]
            IN [S EXCEPT !.ino = Trim(cl, refd)]
 
-\* ground truth for PartCacheExact: during a GetPart(id) call, was id ever absent / possibly present?
-\* A DeletePart counts as complete only when its after-commit Remove ran.
-MayPresent(S, id) == S.inner[id] \/ \E w \in Threads : S.op[w].kind = "pdel" /\ S.op[w].k = id /\ S.pc[w] = "commit"
+\* ground truth for PartCacheExact: during a GetPart(id) call, was id ever absent (in the inner store) /
+\* possibly present (in the inner store, or in some linearisation: ghost absP, or its DeletePart still
+\* running - a DeletePart counts as complete only when its after-commit Remove ran)?
+MayPresent(S, id) == S.inner[id] \/ S.absP[id] \/ \E w \in Threads : S.op[w].kind = "pdel" /\ S.op[w].k = id /\ S.pc[w] = "commit"
 SawUpd(S0, t, S1) ==
   LET inflight0(u) == S0.op[u].kind = "pget" /\ S0.pc[u] \notin {"idle", "done"}
       begins(u) == u = t /\ S0.pc[t] \in {"idle", "done"} /\ S1.op[t].kind = "pget"
@@ -229,7 +241,9 @@ SawUpd(S0, t, S1) ==
                    IF begins(u) THEN MayPresent(S0, S1.op[u].k) \/ MayPresent(S1, S1.op[u].k)
                    ELSE IF inflight0(u) THEN S0.sawP[u] \/ MayPresent(S1, S1.op[u].k) ELSE S1.sawP[u]]]
 
-Post(S0, t, S1) == Norm(SawUpd(S0, t, S1))
+Post(S0, t, S1) ==
+  LET a == IF \E u \in Threads : S1.op[u].kind = "pget" THEN SawUpd(S0, t, S1) ELSE S1
+  IN IF Len(a.ino) = 0 THEN a ELSE Norm(a)
 BeginSet(S, t, o) == {Post(S, t, S1) : S1 \in BeginRaw(S, t, o)}
 StepSet(S, t) == {Post(S, t, S1) : S1 \in StepRaw(S, t)}
 
@@ -273,4 +287,5 @@ InvGet == GetReturnsCompletedSet(S)
 InvPart == PartCacheExact(S)
 InvNoPanic == NoPanic(S)
 InvNoUnsync == NoUnsyncedMapAccess(S)
+InvCanStep == \A t \in Threads : CanStep(S, t) <=> (StepSet(S, t) # {})
 =============================================================================
